@@ -98,6 +98,12 @@ CHECKS = {
         text="TLC proves ExecutedOnce, BarredNeverRuns, Bounded and Ordered for every script (2-3 responses x up to 2 call items incl. duplicate call ids via repeated done events, reversed output order, streamed arguments, an unknown tool; 6 response outcomes; 5 tool choices; both history modes) and prints one script per distinct predicted run; the real run must execute exactly the predicted calls in order (the append-only file written by the write tool counts executions), answer exactly the predicted call ids in the very next request, never execute a barred tool, stop at 32 calls, send previous_response_id / an extending input, and never send a request with validation errors.",
         note="The scripted provider records the request bodies actually sent; call alphabet of 3-4 items.",
         ref="4 C16"),
+    "C17": dict(
+        engine="TaskLife",
+        technique="TLA+ specs TaskLife (runner, child process, two pumps and a cancel request as separately scheduled steps; WellFormed, Ends) and Capture (capture_stream transcribed as a fold over OS reads, bytes as positions; Faithful for every chunking) model-checked with TLC; every Capture case replayed on the real bash tool with a writer producing exactly those reads; recorded task streams plus on-disk measurements validated by TLC (TaskLifeTrace)",
+        text="TLC proves WellFormed (opens with the spawn frame, running at most once, exactly one terminal frame and nothing after it, cancel request before the cancelled status, consecutive ranges covering the stored output, stored = prefix up to the cap) and termination for every interleaving of process writes, pump reads, cancel and exit, and Faithful (preview and artifact are prefixes, artifact exists exactly when needed) for every chunking x preview limit x cap; every (limit, cap, chunking) case is run on the real bash tool in three unit sizes with ASCII / multi-byte / binary payloads and the preview, the artifact bytes, its sha256 name and artifact_fetch pages are compared byte for byte; real tasks over payload class x cap x preview limit x exit code, read-size boundaries, both streams at volume, invalid requests, cancel while queued / at once / mid-output / twice / after exit and a late writer are run through the router and TLC validates each stream with the stored bytes, the terminal summary, the snapshot and /output pages.",
+        note="PTY tasks not exercised; OS chunking is steered by 30 ms gaps (the oracle does not depend on it); one recorded finding (binary output cannot be paged losslessly).",
+        ref="4 C17"),
     "C18": dict(
         engine="Authority",
         technique="TLA+ spec Authority (lock.json / meta.json, one action per file-system call of try_acquire, write_meta, Drop, stale and corrupt cleanup, the recovery loop) model-checked with TLC for the atomic-cleanup design and as implemented; complete behaviours TLC enumerates for the as-implemented model are forced on the real acquire_authority_lock_with_recovery with gates at the auth.* hook points and compared step by step (files, results)",
